@@ -173,3 +173,21 @@ func init() {
 		Edits: []edit{{"wal.go", "	// Ensure queued rotation has completed before us if we raced with it for\n	// write lock.\n	w.awaitRotationLocked()\n\n	// Close may have completed while we waited for the lock or the rotation.\n	if err := w.checkClosed(); err != nil {\n		return err\n	}\n\n	s, release := w.acquireState()\n	defer release()\n\n	// Work out what type of truncation this is.",
 			"	if err := w.checkClosed(); err != nil {\n		return err\n	}\n	if min > w.loadState().firstIndex() {\n		w.awaitRotationLocked()\n		if err := w.checkClosed(); err != nil {\n			return err\n		}\n	}\n\n	s, release := w.acquireState()\n	defer release()\n\n	// Work out what type of truncation this is."}}})
 }
+
+func init() {
+	// a *correct* chunked CRC of the last batch must raise no alarm (cf. seed C15-r5, which is declined)
+	addMutant(mutant{Name: "silent/recovery-crc-in-correct-chunks", Silent: true,
+		Edits: []edit{{"segment/writer.go", "	batchBuf := make([]byte, bufLen)\n\n	if _, err := w.wf.ReadAt(batchBuf, finalCommit.crcStart); err != nil {\n		return fmt.Errorf(\"failed to read last committed batch for CRC validation: %w\", err)\n	}\n\n	gotCrc := crc32.Checksum(batchBuf, castagnoliTable)\n",
+			"	gotCrc, err := w.checksumRange(finalCommit.crcStart, bufLen)\n	if err != nil {\n		return fmt.Errorf(\"failed to read last committed batch for CRC validation: %w\", err)\n	}\n"},
+			{"segment/writer.go", "// Close implements io.Closer\nfunc (w *Writer) Close() error {", "func (w *Writer) checksumRange(start, length int64) (uint32, error) {\n	buf := make([]byte, minBufSize)\n	crc := uint32(0)\n	for done := int64(0); done < length; {\n		chunk := buf\n		if rest := length - done; rest < int64(len(chunk)) {\n			chunk = buf[:rest%minBufSize]\n		}\n		if _, err := w.wf.ReadAt(chunk, start+done); err != nil {\n			return 0, err\n		}\n		crc = crc32.Update(crc, castagnoliTable, chunk)\n		done += int64(len(chunk))\n	}\n	return crc, nil\n}\n\n// Close implements io.Closer\nfunc (w *Writer) Close() error {"}}})
+}
+
+func init() {
+	addMutant(mutant{Name: "filer/open-accepts-short-header-read", Fire: []string{"VF-26"},
+		Edits: []edit{{"segment/filer.go", "	if _, err := rf.ReadAt(hdr[:], 0); err != nil {", "	n, err := rf.ReadAt(hdr[:], 0)\n	if errors.Is(err, io.EOF) && n >= frameHeaderLen {\n		err = nil\n	}\n	if err != nil {"}}})
+	addMutant(mutant{Name: "silent/filer-open-tolerates-eof-with-full-header", Silent: true,
+		Edits: []edit{{"segment/filer.go", "	if _, err := rf.ReadAt(hdr[:], 0); err != nil {", "	n, err := rf.ReadAt(hdr[:], 0)\n	if errors.Is(err, io.EOF) && n == fileHeaderLen {\n		err = nil\n	}\n	if err != nil {"}}})
+	addMutant(mutant{Name: "wal/rotation-counted-only-by-goroutine", Fire: []string{"VF-25"},
+		Edits: []edit{{"wal.go", "	w.metrics.IncrementCounter(\"segment_rotations\", 1)\n	return w.mutateStateLocked(txn)", "	return w.mutateStateLocked(txn)"},
+			{"wal.go", "			w.log.Error(\"rotate error\", \"err\", err)\n		}", "			w.log.Error(\"rotate error\", \"err\", err)\n		} else {\n			w.metrics.IncrementCounter(\"segment_rotations\", 1)\n		}"}}})
+}
